@@ -1,9 +1,23 @@
 """C18 — hibernation suspends exactly the demes that did not sprout, and never stalls."""
 from . import _whole
+from .. import session
 
 
 def nontrivial(r):
     return r["spec"]["hibernation"] and r["stats"].get("rounds", 0) >= 2
+
+
+def sessions(ctx, results):
+    r = session.run_sessions(ctx, ctx.n(16, 300), ["C18"])
+    known = "C18/progress/all-active-demes-hibernating"
+    return {"violations": [v for v in r["violations"] if v["key"].startswith("C18")], "evaluations": r["evaluations"], "distinct_nontrivial": 0, "notes": {"session_runs": r["evaluations"]}}
+
+
+def _replay_session(ctx, data):
+    return session.replay_session(ctx, data, ["C18"])
+
+
+sessions.replay_name, sessions.replay = "session", _replay_session
 
 
 _whole.install(globals(), "C18",
@@ -13,5 +27,5 @@ _whole.install(globals(), "C18",
                     "machine replay (flags compared at every boundary) + monitor on real runs.",
                note="Known finding C18/progress/all-active-demes-hibernating stays open (clauses 1+2 and 3 of the property conflict in that state).",
                technique="Coq invariant over all event streams + refutation witness by vm_compute + vm_compute trace replay against the real package",
-               quick=240, thorough=6000, nontrivial=nontrivial,
+               quick=240, thorough=6000, nontrivial=nontrivial, extra_checks=[sessions],
                forces=[(3, {"hibernation": True}), (1, {"hibernation": False}), (2, {"hibernation": True, "height": 3})])
